@@ -121,9 +121,9 @@ def random_ops(rng, length):
                             "ts": rng.choice([ts, ts, 0]), "err": kind == "err", "rtr": kind == "rtr"})
         elif r < 0.97:
             cid = rng.choice([0, 1, 0x7FE, 0x7FF, 0x800, 0x801, 0x1FFFFFFF, rng.randrange(0x800), rng.randrange(1 << 29)])
-            remote = rng.random() < 0.3       # a remote frame carries no data
+            remote = rng.random() < 0.3       # a remote frame usually carries no data; the flag is the caller's choice all the same
             ops.append({"op": "send", "id": cid, "remote": remote,
-                        "d": [] if remote else [rng.randrange(256) for _ in range(rng.randrange(0, 9))]})
+                        "d": [] if remote and cid % 2 == 0 else [rng.randrange(256) for _ in range(rng.randrange(0, 9))]})
         else:
             ops.append({"op": "scanreset"})
     return ops
